@@ -2,6 +2,7 @@
 from __future__ import annotations
 
 import itertools
+import copy
 import re
 
 from .. import common, gen, sge
@@ -152,7 +153,7 @@ def check_design(ctx: Ctx, d: dict, r: dict, exprs: list, meta: list):
         return
     for t in d['targetons']:
         if d['mode'] == 'sge':
-            name = sge.sge_targeton_name(d['contig'], d['strand'], t)
+            name = sge.sge_targeton_name(t.get('contig', d['contig']), t.get('strand', d['strand']), t)
             tt = t
         else:
             cand = [n for n in sge.targeton_names(r['files']) if n.startswith(t['seq_id'] + '_')]
@@ -178,7 +179,7 @@ def check_design(ctx: Ctx, d: dict, r: dict, exprs: list, meta: list):
                 got.setdefault(m, []).append((int(row['mut_position']), row['ref'], row['new']))
         if template is None:
             # no rows at all: fine only if nothing was expected; need the template from the design
-            template = (d['ref'].upper()[t['ref_start'] - 1:t['ref_end']] if d['mode'] == 'sge'
+            template = (dict({d['contig']: d['ref']}, **(d.get('extra_contigs') or {}))[t.get('contig', d['contig'])].upper()[t['ref_start'] - 1:t['ref_end']] if d['mode'] == 'sge'
                         else d['seqs'][t['seq_id']][t['ref_start'] - 1:t['ref_end']])
         exp = expected_rows(tt, template, t['ref_start'])
         for lab in sorted(set(exp) | set(got)):
@@ -252,6 +253,23 @@ def files(ctx: Ctx):
                     extra = [alias_spelling(m) for m in items if alias_spelling(m) != m and ctx.rng.random() < 0.2]
                     if extra:
                         t['action'][i] = ', '.join(items + extra)
+    # targetons of two contigs in interleaved rows (chr1, chr2, chr1, ...; own generator state): every row of the file is a targeton of its own
+    import random as _random
+    r3 = _random.Random(f'C02-interleaved-contigs-{ctx.seed}')
+    for _ in range(max(4, n // 15)):
+        d = gen.gen_sge(r3, {'p_bg': 0.0, 'p_custom': 0.0, 'p_pam': 0.0, 'p_gtf': 0.0, 'n_targetons': r3.choice([2, 3]),
+                             'non_cds_mut': ['snv', '1del', '2del0', '2del1', '3del1']})
+        if len(d['targetons']) < 2:
+            continue
+        c2 = gen.rand_dna(r3, len(d['ref']))
+        d['extra_contigs'] = {'chr2': c2}
+        mixed = []
+        for k, t in enumerate(d['targetons']):
+            mixed.append(t)
+            if k < len(d['targetons']) - 1:
+                mixed.append(dict(copy.deepcopy(t), contig='chr2', sgrna=[]))
+        d['targetons'] = mixed
+        designs.append(d)
     # two-digit offsets and spans (own generator state): 2del10, 3del10, 5del20, 10del10, 12del20 added to region 2 of every sixth SGE design
     import random
     r2 = random.Random(f'C02-two-digit-{ctx.seed}')
